@@ -147,8 +147,9 @@ void evalGroupings(const int dim, const int height, const std::vector<long>& lea
     using SI = Morton<Dim>;
     using FX = Fixture<double, SI, KS>;
     using Algo = TbfAlgorithm<double, typename FX::Kernel, SI>;
-    auto runOne = [&](const Spec& s, u64& log, u64& content, std::array<long,OpCount>& elems){
+    auto runOne = [&](const Spec& s, u64& log, u64& content, std::array<long,OpCount>& elems, const bool rebuildFirst = false){
         FX fx(s);
+        if(rebuildFirst) fx.tree->rebuild();      // a rebuilt tree must be grouped like a freshly built one
         fx.tag();
         fx.cx.checkArgs = false;
         fx.template run<Algo>();
@@ -174,6 +175,14 @@ void evalGroupings(const int dim, const int height, const std::vector<long>& lea
             out.add("grouping:interaction-multiset", d);
         }
         if(content != ccontent) out.add("grouping:results-differ", "cell expansions or particle results differ from the single-group run");
+        if(leaves.size() >= 2 && s.blockSize >= 1){
+            // same configuration on a tree that went through rebuild() (nothing moved)
+            u64 log2, content2; std::array<long,OpCount> elems2;
+            runOne(s, log2, content2, elems2, true);
+            if(log2 != clog) out.add("grouping:interaction-multiset-after-rebuild", "elementary interactions of the rebuilt tree differ from the single-group run");
+            if(content2 != ccontent) out.add("grouping:results-differ-after-rebuild", "results of the rebuilt tree differ from the single-group run");
+            rep.evaluations += 1;
+        }
         if(s.envBlock > 0){
             FX fx(s);
             if(fx.tree->getNbElementsPerGroup() != s.envBlock) out.add("grouping:env-override-ignored", "TBFMM_BLOCK_SIZE=" + std::to_string(s.envBlock) + " gave " + std::to_string(fx.tree->getNbElementsPerGroup()));
@@ -209,6 +218,45 @@ void runSpace(const std::string& mode, const Space& sp, const Args& args, Report
     });
 }
 
+// C06 with a data type different from the coordinate type, extra data values, float coordinates
+template <int Dim, class Real, class DataT, int NbExtra>
+void evalC06Typed(const Spec& spec, Report& rep, const std::string& tag){
+    using SI = TbfMortonSpaceIndex<Dim, TbfSpacialConfiguration<Real, Dim>, false>;
+    using FX = Fixture<Real, SI, KS, NbExtra, DataT>;
+    using Algo = TbfAlgorithm<Real, typename FX::Kernel, SI>;
+    Outcome out;
+    FX fx(spec);
+    fx.checkConstruction(out, true);
+    const u64 before = fx.treeDigest(9);
+    fx.tag();
+    fx.cx.checkArgs = true;
+    fx.template run<Algo>();
+    if(fx.treeDigest(9) != before) out.add("execute:modified-symbolic-or-data", "cell headers or particle positions/indices/data changed by execute()");
+    fx.checkConstruction(out, false);
+    for(const auto& kv : fx.cx.violations) if(kv.first.find("particle-data-bits") != std::string::npos) out.add("call:" + kv.first, kv.second);
+    rep.evaluations += 1; if(spec.parts.size() >= 2) rep.nontrivial += 1;
+    if(!out.ok()) rep.addOutcome(out, tag + " " + spec.str(), "typed:");
+}
+
+template <int Dim>
+void runTyped(const Space& sp, const Args& args, Report& rep, Progress& pg){
+    const long nLeaves = 1L << (sp.dim*(sp.height-1));
+    rep.spaces.push_back("typed (coordinate,data,extra values) in {(float,float,0),(float,double,2),(double,float,3),(double,double,5)}: " + sp.describe());
+    forEachPattern(nLeaves, sp.maxSubset, args.slice, args.nbSlices, [&](const std::vector<long>& leaves){
+        if(rep.timeUp()){ rep.exhaustive = false; return; }
+        pg.publish(rep);
+        for(const int motif : sp.motifs) for(const int boxId : sp.boxIds)
+            for(const long bs : blockSizesFor(long(leaves.size()), sp.allBlockSizes)) for(int og = 0 ; og < 2 ; ++og){
+                const Spec spec = makeSpec(sp.dim, sp.height, leaves, motif, boxes()[boxId], bs, og != 0, 2);
+                if(!pg.begin("typed: " + spec.str())) continue;
+                evalC06Typed<Dim, float, float, 0>(spec, rep, "real=float data=float extra=0");
+                evalC06Typed<Dim, float, double, 2>(spec, rep, "real=float data=double extra=2");
+                evalC06Typed<Dim, double, float, 3>(spec, rep, "real=double data=float extra=3");
+                evalC06Typed<Dim, double, double, 5>(spec, rep, "real=double data=double extra=5");
+            }
+    });
+}
+
 // the Hilbert ordering (3-D only): C01 count channel, C02 arguments/geometry, C06 construction
 void runHilbert(const std::string& mode, const Space& sp, const Args& args, Report& rep, Progress& pg){
     using HI = TbfHilbertSpaceIndex<3, TbfSpacialConfiguration<double,3>, false>;
@@ -237,7 +285,7 @@ void runSpaceDyn(const std::string& mode, const Space& sp, const Args& args, Rep
 
 std::vector<Space> spacesFor(const std::string& mode, const std::string& tier){
     const bool thorough = (tier == "thorough");
-    const std::vector<int> mAll = {MCentre, MMixed, MCorner, MTwo, MTwoSame, MUpperFace};
+    const std::vector<int> mAll = {MCentre, MMixed, MCorner, MTwo, MTwoSame, MUpperFace, MVaried};
     const std::vector<int> mFew = {MMixed, MCorner};
     const std::vector<int> mOne = {MMixed};
     const std::vector<int> mC06 = {MCentre, MMixed, MCorner, MTwo, MTwoSame, MUpperFace, MUlpInside, MUlpBelow};
@@ -252,11 +300,14 @@ std::vector<Space> spacesFor(const std::string& mode, const std::string& tier){
     const std::vector<long> ups = {0,1,2};
     const bool c08 = (mode == "C08");
     if(mode == "C18"){
-        s.push_back({1, 4, 0, mAll, bUnit, true, ups});
-        s.push_back({2, 3, 0, mFew, bUnit, true, up2});
-        s.push_back({3, 2, 0, mFew, bUnit, true, ups});
-        s.push_back({4, 2, 0, mOne, bUnit, true, up2});
-        s.push_back({3, 3, 2, {MMixed, MTwo}, bUnit, false, up2});
+        const std::vector<int> mV = {MVaried};
+        const std::vector<int> mAllV = {MCentre, MMixed, MCorner, MTwo, MTwoSame, MUpperFace, MVaried};
+        s.push_back({1, 4, 0, mAllV, bUnit, true, ups});
+        s.push_back({2, 3, 0, {MMixed, MVaried}, bUnit, true, up2});
+        s.push_back({3, 2, 0, {MMixed, MCorner, MVaried}, bUnit, true, ups});
+        s.push_back({4, 2, 0, mV, bUnit, true, up2});
+        s.push_back({3, 3, 2, {MMixed, MVaried}, bUnit, false, up2});
+        s.push_back({3, 4, 2, mV, bUnit, false, up2});
         s.push_back({2, 4, 2, mOne, bUnit, false, up2});
         s.push_back({3, 4, 1, mFew, bUnit, false, ups});
         s.push_back({1, 6, 2, mOne, bUnit, false, up2});
@@ -324,6 +375,20 @@ void runBoxLattice(const std::string& mode, const Args& args, Report& rep, Progr
 int replayOne(const std::string& mode, const std::string& text){
     const Spec spec = parseSpec(text);
     Report rep; rep.property = mode;
+    if(text.compare(0, 5, "real=") == 0){
+        // "real=float data=double extra=2 dim=..." : typed construction case (C06)
+        const bool f = text.find("real=float") != std::string::npos, dd = text.find("data=double") != std::string::npos;
+        auto go = [&](auto dimTag){
+            constexpr int D = decltype(dimTag)::value;
+            if(f && !dd) evalC06Typed<D, float, float, 0>(spec, rep, "real=float data=float extra=0");
+            else if(f && dd) evalC06Typed<D, float, double, 2>(spec, rep, "real=float data=double extra=2");
+            else if(!f && !dd) evalC06Typed<D, double, float, 3>(spec, rep, "real=double data=float extra=3");
+            else evalC06Typed<D, double, double, 5>(spec, rep, "real=double data=double extra=5");
+        };
+        if(spec.dim == 1) go(std::integral_constant<int,1>()); else if(spec.dim == 2) go(std::integral_constant<int,2>()); else go(std::integral_constant<int,3>());
+        for(const auto& kv : rep.violations) std::cout << "REPLAY-VIOLATION key=" << kv.first << " detail=" << kv.second.second << "\n";
+        return rep.violations.empty() ? 0 : 1;
+    }
     if(text.compare(0, 8, "hilbert:") == 0){
         evalCase<3, TbfHilbertSpaceIndex<3, TbfSpacialConfiguration<double,3>, false>>(mode, spec, rep, "hilbert:");
         for(const auto& kv : rep.violations) std::cout << "REPLAY-VIOLATION key=" << kv.first << " detail=" << kv.second.second << "\n";
@@ -359,6 +424,13 @@ int main(int argc, char** argv){
             runHilbert(args.mode, {3, 3, 2, {MMixed}, {0}, false, {2}}, args, rep, pg);
             runHilbert(args.mode, {3, 4, (args.tier == "thorough" ? 2 : 1), {MMixed}, {0, 1}, false, {2}}, args, rep, pg);
             runHilbert(args.mode, {3, 5, 1, {MMixed}, {0}, false, {2}}, args, rep, pg);
+        }
+        if(args.mode == "C06"){
+            // boxes 0 (unit) and 5 (dyadic 16 wide): representable in float
+            runTyped<3>({3, 2, 0, {MMixed, MCorner, MTwo}, {0, 5}, true, {2}}, args, rep, pg);
+            runTyped<1>({1, 4, 0, {MMixed, MUpperFace}, {0, 5}, true, {2}}, args, rep, pg);
+            runTyped<2>({2, 3, 2, {MMixed}, {0}, false, {2}}, args, rep, pg);
+            runTyped<3>({3, 4, 1, {MMixed}, {0}, false, {2}}, args, rep, pg);
         }
         if(args.mode == "C06"){ runBoxLattice<1>(args.mode, args, rep, pg); runBoxLattice<3>(args.mode, args, rep, pg); }
     });
